@@ -37,6 +37,9 @@ Fixpoint zrange_from (start : Z) (n : nat) : list Z :=
 Definition zrange (n : Z) : list Z := zrange_from 0 (Z.to_nat n).
 Definition zenumerate {A} (l : list A) : list (Z * A) := combine (zrange_from 0 (length l)) l.
 
+(** one of the two bin maps `_adapt` returns: None, (), or pairs (old index, new index) *)
+Inductive adaptmap := AMNone | AMEmpty | AMList (l : list (Z * Z)).
+
 (** what `_force_bin_existence_single` may return: (), an int, or None *)
 Inductive optint := OITuple0 | OIInt (z : Z) | OINone.
 
